@@ -434,13 +434,16 @@ class Netlist:
 
         checked = set()
         busy = set()
+        # For cells whose outputs all depend on all inputs, the sibling outputs of the net being
+        # traversed are busy as well; a cycle through any of them is a cycle through that net.
+        busy_owner = {}
 
         def traverse(net):
             if net in checked:
                 return None
 
             if net in busy:
-                return Cycle(net)
+                return Cycle(busy_owner.get(net, net))
             busy.add(net)
 
             cycle = None
@@ -459,6 +462,7 @@ class Netlist:
                     for extra_net in extra_nets:
                         assert extra_net not in checked
                         busy.add(extra_net)
+                        busy_owner[extra_net] = net
                 for src, src_loc in cell.comb_edges_to(net.bit):
                     cycle = traverse(src)
                     if cycle is not None:
@@ -482,6 +486,7 @@ class Netlist:
             checked.add(net)
             for extra_net in extra_nets:
                 busy.remove(extra_net)
+                del busy_owner[extra_net]
                 checked.add(extra_net)
             return cycle
 
